@@ -170,26 +170,125 @@ theorem stitchAllP_fst {s : Store} (wf : ArchWF s) (n : Nat) : (stitchAllP s n).
   · simp [hc, this]
   · simp [hc, this, stitchDownP_fst wf]
 
-theorem stitchDownP_snd (s : Store) (b : Nat) (last : Option Str) :
-    (stitchDownP s b last).2 = (chainBelow s b).flatMap (bandErrs s) := by
+theorem headLost_eq (s : Store) (b : Nat) (hp : bandPresent s b = false) :
+    isFileP s (.hunk b 0) = headLost s b := by
+  unfold isFileP headLost; rw [hp]; cases s.get? (.hunk b 0) <;> rfl
+
+theorem stitchDownP_snd {s : Store} (wf : ArchWF s) (b : Nat) (last : Option Str) :
+    (stitchDownP s b last).2 = errorsBelow s b := by
+  have hb : bandErrs s = bandErrors s := funext (bandErrs_eq wf)
   induction b generalizing last with
   | zero => rfl
   | succ b ih =>
-    unfold stitchDownP chainBelow
+    unfold stitchDownP errorsBelow
     rw [bandPresent_eq, isComplete_eq]
     by_cases hp : bandPresent s b = true
     · by_cases hc : isComplete s b = true
-      · simp [hp, hc]
-      · simp [hp, hc, ih]
-    · simp [hp, ih]
+      · simp [hp, hc, hb]
+      · simp [hp, hc, ih, hb]
+    · have hp' : bandPresent s b = false := by simpa using hp
+      simp [hp', ih, headLost_eq s b hp']
 
 theorem stitchAllP_snd {s : Store} (wf : ArchWF s) (n : Nat) : (stitchAllP s n).2 = listErrors s n := by
   have hb : bandErrs s = bandErrors s := funext (bandErrs_eq wf)
-  unfold stitchAllP listErrors chain
+  unfold stitchAllP listErrors
   rw [isComplete_eq]
   by_cases hc : isComplete s n = true
   · simp [hc, hb]
-  · simp [hc, stitchDownP_snd, hb]
+  · simp [hc, stitchDownP_snd wf, hb]
+
+/-! ### The errors of the walk and the errors of the chain -/
+
+/-- The chain's errors all occur among the walk's, in the same order. -/
+theorem chainBelow_errs_sublist (s : Store) (b : Nat) :
+    ((chainBelow s b).flatMap (bandErrors s)).Sublist (errorsBelow s b) := by
+  induction b with
+  | zero => exact List.Sublist.refl _
+  | succ b ih =>
+    unfold chainBelow errorsBelow
+    by_cases hp : bandPresent s b = true
+    · by_cases hc : isComplete s b = true
+      · simp [hp, hc]
+      · simp only [hp, hc, if_true, Bool.false_eq_true, if_false, List.flatMap_cons]
+        exact List.Sublist.append (List.Sublist.refl _) ih
+    · simp only [hp, Bool.false_eq_true, if_false]
+      exact ih.trans (List.sublist_append_right _ _)
+
+theorem chainErrors_sublist (s : Store) (n : Nat) : (chainErrors s n).Sublist (listErrors s n) := by
+  unfold chainErrors listErrors chain
+  by_cases hc : isComplete s n = true
+  · simp [hc]
+  · simp only [hc, Bool.false_eq_true, if_false, List.flatMap_cons]
+    exact List.Sublist.append (List.Sublist.refl _) (chainBelow_errs_sublist s n)
+
+theorem mem_listErrors_of_chain {s : Store} {n b : Nat} {e : Err} (hb : b ∈ chain s n)
+    (he : e ∈ bandErrors s b) : e ∈ listErrors s n :=
+  (chainErrors_sublist s n).subset (List.mem_flatMap.mpr ⟨b, hb, he⟩)
+
+/-- No id below `b` has lost its head: the walk reports what the chain reports. -/
+theorem errorsBelow_eq_chain {s : Store} (b : Nat) (h : ∀ c, c < b → headLost s c = false) :
+    errorsBelow s b = (chainBelow s b).flatMap (bandErrors s) := by
+  induction b with
+  | zero => rfl
+  | succ b ih =>
+    have ih' := ih fun c hc => h c (by omega)
+    unfold chainBelow errorsBelow
+    by_cases hp : bandPresent s b = true
+    · by_cases hc : isComplete s b = true
+      · simp [hp, hc]
+      · simp [hp, hc, ih']
+    · simp [hp, ih', h b (by omega)]
+
+theorem listErrors_eq_chainErrors {s : Store} (n : Nat) (h : ∀ c, c < n → headLost s c = false) :
+    listErrors s n = chainErrors s n := by
+  unfold chainErrors listErrors chain
+  by_cases hc : isComplete s n = true
+  · simp [hc]
+  · simp [hc, errorsBelow_eq_chain n h]
+
+/-- Every error of the walk below `b` is an error of a version of the chain, or the
+`bandHeadMissing` of an id below `b` that lost its head. -/
+theorem mem_errorsBelow {s : Store} {b : Nat} {e : Err} (he : e ∈ errorsBelow s b) :
+    (∃ c ∈ chainBelow s b, e ∈ bandErrors s c) ∨
+    (∃ c, c < b ∧ headLost s c = true ∧ e = .bandHeadMissing c) := by
+  induction b with
+  | zero => simp [errorsBelow] at he
+  | succ b ih =>
+    unfold errorsBelow at he
+    unfold chainBelow
+    by_cases hp : bandPresent s b = true
+    · by_cases hc : isComplete s b = true
+      · simp only [hp, hc, if_true, List.append_nil] at he
+        exact Or.inl ⟨b, by simp [hp, hc], he⟩
+      · simp only [hp, hc, if_true, Bool.false_eq_true, if_false, List.mem_append] at he
+        rcases he with he | he
+        · exact Or.inl ⟨b, by simp [hp, hc], he⟩
+        · rcases ih he with ⟨c, hcm, hce⟩ | ⟨c, hlt, hl, rfl⟩
+          · exact Or.inl ⟨c, by simp [hp, hc, hcm], hce⟩
+          · exact Or.inr ⟨c, by omega, hl, rfl⟩
+    · simp only [hp, Bool.false_eq_true, if_false, List.mem_append] at he
+      rcases he with he | he
+      · by_cases hl : headLost s b = true
+        · simp only [hl, if_true, List.mem_singleton] at he
+          exact Or.inr ⟨b, by omega, hl, he⟩
+        · simp [hl] at he
+      · rcases ih he with ⟨c, hcm, hce⟩ | ⟨c, hlt, hl, rfl⟩
+        · exact Or.inl ⟨c, by simp [hp, hcm], hce⟩
+        · exact Or.inr ⟨c, by omega, hl, rfl⟩
+
+theorem mem_listErrors {s : Store} {n : Nat} {e : Err} (he : e ∈ listErrors s n) :
+    (∃ c ∈ chain s n, e ∈ bandErrors s c) ∨
+    (∃ c, c < n ∧ headLost s c = true ∧ e = .bandHeadMissing c) := by
+  unfold listErrors at he
+  unfold chain
+  rcases List.mem_append.mp he with he | he
+  · exact Or.inl ⟨n, by simp, he⟩
+  · by_cases hc : isComplete s n = true
+    · simp [hc] at he
+    · simp only [hc, Bool.false_eq_true, if_false] at he
+      rcases mem_errorsBelow he with ⟨c, hcm, hce⟩ | r
+      · exact Or.inl ⟨c, by simp [hc, hcm], hce⟩
+      · exact Or.inr r
 
 /-! ### The rule as a fold over the chain -/
 
